@@ -71,3 +71,14 @@ package model
 //@ func (*BinaryModel).containsCycle
 //@   requires p != nil && state != nil
 //@   terminates-assumed every call either returns at once or marks a so far unmarked packet in state; the set of packets is finite
+
+// wf.rank: the reference graph of a finished model is acyclic (recursive references are rejected by
+// ResolveDependencies/containsCycle). rank is a ghost measure that decreases from a packet to its
+// fields and from a field to the packets it refers to; it is the variant of the recursive emitters.
+//@ inv *BinaryModel: self == themodel()
+//@ inv *Packet: rank(self) >= 0 && forall(j, 0, len(self.Fields), rank(self.Fields[j]) < rank(self))
+//@ inv *Field: rank(self) >= 0
+//@ inv *Field: typeis(self.Attr, *ObjectFieldAttribute) ==> 0 <= rank(unbox(self.Attr, *ObjectFieldAttribute).RefPacket) && rank(unbox(self.Attr, *ObjectFieldAttribute).RefPacket) < rank(self)
+//@ inv *Field: typeis(self.Attr, *MatchFieldAttribute) ==> forall(k, 0, len(unbox(self.Attr, *MatchFieldAttribute).MatchPairs), haskey(themodel().PacketsMap, unbox(self.Attr, *MatchFieldAttribute).MatchPairs[k].Value) && 0 <= rank(themodel().PacketsMap[unbox(self.Attr, *MatchFieldAttribute).MatchPairs[k].Value]) && rank(themodel().PacketsMap[unbox(self.Attr, *MatchFieldAttribute).MatchPairs[k].Value]) < rank(self))
+// wf.key: every match table of a packet is keyed by a declared field of that packet
+//@ inv *Packet: forallkey(k, self.MatchFields, haskey(self.FieldMap, k))
